@@ -768,7 +768,10 @@ func (g *c17Gen) next() c17Op {
 		if g.cfg.Updates && len(g.live) > 0 && g.rng.Intn(6) == 0 {
 			e, _ := g.pickVictim()
 			o := c17Op{Op: "u", K: e.Ki, R: e.Rid, K2: e.Ki, R2: e.Rid}
-			switch g.rng.Intn(3) {
+			self := false
+			switch g.rng.Intn(4) {
+			case 3: // the entry is replaced by itself (what an UPDATE assigning an indexed column its old value does, in place)
+				self = true
 			case 0: // relocation: same key, new row id
 				o.R2 = g.freshRid()
 			case 1: // key change, same row id
@@ -780,7 +783,7 @@ func (g *c17Gen) next() c17Op {
 			if o.K2 != o.K && g.m.Count(o.K2) >= g.cfg.MaxDup {
 				o.K2 = o.K
 			}
-			if o.K2 == o.K && o.R2 == o.R {
+			if o.K2 == o.K && o.R2 == o.R && !self {
 				o.R2 = g.freshRid()
 			}
 			return o
